@@ -37,6 +37,14 @@ func (x *Exec) step(st *State, fi int, instr ssa.Instruction, from *ssa.BasicBlo
 				x.storeFieldRaw(st, r, et, p, x.zero(ft))
 			}
 			x.setReg(st, fi, in, Value{T: r, Typ: in.Type()})
+			if in.Comment != "" && in.Comment != "complit" {
+				hl := map[string]Value{}
+				for k, v := range fr.heapLocals {
+					hl[k] = v
+				}
+				hl[in.Comment] = Value{T: r, Typ: in.Type()}
+				fr.heapLocals = hl
+			}
 			return
 		}
 		if in.Heap && isStructVal(et) && x.isOpaqueStruct(et) {
